@@ -109,6 +109,11 @@ func RunScenario(t *testing.T, sc *Scenario, src simrt.Source, keepTape bool) (r
 		res.LastSite = simrt.SiteString(s.LastSite)
 		res.Evs = w.Evs
 		res.NEvents = len(w.Evs)
+		if s.Stalls > 0 {
+			w.mu.Lock()
+			w.Faults["stalled-task"] += s.Stalls
+			w.mu.Unlock()
+		}
 		res.Faults, res.Probes = w.Faults, w.Probes
 		res.States = sortedKeys(w.States)
 		res.Viol = append(res.Viol, w.Viol...)
